@@ -49,7 +49,8 @@ Qed.
 (* ---------- the loops produce one code per announced pair ---------- *)
 Definition codes_ok (fs:fstep) : Prop := forall d idx mt, code_ok (fst (fst (fst (fs d idx mt)))).
 Ltac lit := unfold code_ok; cbn [fst]; lia.
-Ltac destr_lets := repeat match goal with |- context [match ?g with pair _ _ => _ end] => is_var g; fail 1 | |- context [match ?g with pair _ _ => _ end] => destruct g end.
+Ltac destr_lets := repeat match goal with |- context [match ?g with pair _ _ => _ end] =>
+  lazymatch g with mnum _ _ _ _ => fail | mstr _ _ _ => fail | _ => destruct g end end.
 Ltac leaf_num := match goal with |- context [mnum ?v ?m ?c ?mt] => unfold mnum; destruct (Z.land v m =? c); lit end.
 Ltac leaf_str := match goal with |- context [mstr ?q ?c ?mt] => unfold mstr; destruct (leqb q c); lit end.
 Lemma codes_ok_60928 nm : codes_ok (fstep_60928 nm).
@@ -163,13 +164,15 @@ Lemma decide_shape e g fc pgn : Forall byte_ok (g_d g) -> g_dst g <> 255 -> (fc 
   (fc = 0 /\ answers_requested pgn a) \/ (exists ack, ack_of a = Some (g_src g, ack) /\ ack_shape ack pgn (np_of (g_d g) fc pgn)).
 Proof.
   intros F Hd Hfc a. assert (BC: g_bcast g = false) by (unfold g_bcast; apply Z.eqb_neq; exact Hd).
-  assert (Hnp: 0 <= np_of (g_d g) fc pgn).
-  { unfold np_of. destruct (fc =? 0); [apply get_byte_range; [exact F|apply get_u16_idx, get_u32_idx; lia]|].
-    destruct (fc =? 1); [apply get_byte_range; [exact F|apply get_byte_idx; lia]|].
-    apply get_byte_range; [exact F|]. apply get_byte_idx, get_byte_idx. destruct (if has_handler pgn then false else is_proprietary pgn); [apply get_u16_idx|]; lia. }
-  unfold a, decide_fc, np_of in *. clear a.
+  assert (GB: forall k v k', get_byte (g_d g) k = (v, k') -> 0 <= k -> 0 <= v /\ 0 <= k').
+  { intros k v k' E Hk. pose proof (get_byte_range (g_d g) k F Hk) as X. pose proof (get_byte_idx (g_d g) k Hk) as Y. rewrite E in X, Y. unfold byte_ok in X. cbn [fst snd] in *. lia. }
+  unfold a, decide_fc, np_of. clear a.
   destruct Hfc as [->|[->|Hfc]].
-  - cbn [Z.eqb] in *. destruct (get_u32 (g_d g) 4) as [iv i1]. destruct (get_u16 (g_d g) i1) as [ov i2]. destruct (get_byte (g_d g) i2) as [np i3]. cbn [fst snd] in *.
+  - cbn [Z.eqb]. destruct (get_u32 (g_d g) 4) as [iv i1] eqn:E1. cbn [fst snd].
+    assert (Hi1: 0 <= i1) by (pose proof (get_u32_idx (g_d g) 4 ltac:(lia)) as X; rewrite E1 in X; exact X).
+    destruct (get_u16 (g_d g) i1) as [ov i2] eqn:E2. cbn [fst snd].
+    assert (Hi2: 0 <= i2) by (pose proof (get_u16_idx (g_d g) i1 Hi1) as X; rewrite E2 in X; exact X).
+    destruct (get_byte (g_d g) i2) as [np i3] eqn:E3. cbn [fst snd]. destruct (GB _ _ _ E3 Hi2) as [Hnp _].
     assert (Filt: forall fs deliver, codes_ok fs -> (forall sel, answers_requested pgn (deliver sel)) ->
               (0 = 0 /\ answers_requested pgn (req_filtered g pgn iv ov np fs deliver)) \/
               (exists ack, ack_of (req_filtered g pgn iv ov np fs deliver) = Some (g_src g, ack) /\ ack_shape ack pgn np)).
@@ -184,15 +187,16 @@ Proof.
     { apply Z.eqb_eq in P3; subst pgn. unfold req_126993. rewrite BC.
       set (pec := if iv =? 0 then 1 else tp_code iv ov (Some (60000, 1000, 6000))).
       assert (Hpec: code_ok pec) by (unfold pec, tp_code; destruct (iv =? 0); [|destruct (_ && _)]; unfold code_ok; lia).
-      destruct (np =? 0).
-      - destruct ((iv =? 4294967295) && (ov =? 65535)); [right; apply Def|].
+      destruct (np =? 0) eqn:N0.
+      - apply Z.eqb_eq in N0. subst np. destruct ((iv =? 4294967295) && (ov =? 65535)); [right; apply Def|].
         destruct (pec =? 0); [left; split; reflexivity|].
         right. eexists. split; [reflexivity|]. apply ack_shape_uniform; try assumption; unfold code_ok; lia.
       - right. eexists. split; [reflexivity|]. apply ack_shape_uniform; try assumption; unfold code_ok; lia. }
     destruct (pgn =? 126996) eqn:P4; [apply Z.eqb_eq in P4; subst pgn; apply Filt; [apply codes_ok_126996|intros; reflexivity]|].
     destruct (pgn =? 126998) eqn:P5; [apply Z.eqb_eq in P5; subst pgn; apply Filt; [apply codes_ok_126998|intros; reflexivity]|].
     right. apply Def.
-  - cbn [Z.eqb Pos.eqb] in *. rewrite BC. right. destruct (get_byte (g_d g) 4) as [b i1]. destruct (get_byte (g_d g) i1) as [np i2]. cbn [fst snd] in *.
+  - cbn [Z.eqb Pos.eqb]. rewrite BC. right. destruct (get_byte (g_d g) 4) as [b i1] eqn:E1. cbn [fst snd]. destruct (GB _ _ _ E1 ltac:(lia)) as [_ Hi1].
+    destruct (get_byte (g_d g) i1) as [np i2] eqn:E2. cbn [fst snd]. destruct (GB _ _ _ E2 Hi1) as [Hnp _].
     destruct (pgn =? 60928) eqn:P1.
     { unfold cmd_60928. set (pec := if b mod 16 =? 8 then 0 else 1).
       destruct (cmd_60928_shape (ack_start 60928 0 pec np) (g_d g) (ack_start_nonnil _ _ _ _) (Z.to_nat np) 0 6 [] 255 255 255 (Forall_nil _) eq_refl)
@@ -209,9 +213,12 @@ Proof.
       split; [reflexivity|]. split; [unfold code_ok; lia|]. split; [apply prio_code_ok|]. split; [exact Fc|lia]. }
     unfold cmd_default. eexists. split; [reflexivity|]. apply ack_shape_uniform; try apply prio_code_ok; try assumption; [destruct (is_tx e pgn)|]; unfold code_ok; lia.
   - assert (E: (fc =? 0) = false /\ (fc =? 1) = false /\ ((fc =? 3) || (fc =? 5)) = true) by (destruct Hfc; subst fc; repeat split; reflexivity).
-    destruct E as (E0 & E1 & E35). rewrite E0, E1 in *. rewrite E35, BC. right.
-    set (i1 := if (if has_handler pgn then false else is_proprietary pgn) then snd (get_u16 (g_d g) 4) else 4) in *.
-    destruct (get_byte (g_d g) i1) as [u i2]. destruct (get_byte (g_d g) i2) as [ns i3]. destruct (get_byte (g_d g) i3) as [np i4]. cbn [fst snd] in *.
+    destruct E as (E0 & E1 & E35). rewrite E0, E1, E35, BC. right.
+    set (i1 := if (if has_handler pgn then false else is_proprietary pgn) then snd (get_u16 (g_d g) 4) else 4).
+    assert (Hi1: 0 <= i1) by (unfold i1; destruct (if has_handler pgn then false else is_proprietary pgn); [apply get_u16_idx|]; lia).
+    destruct (get_byte (g_d g) i1) as [u i2] eqn:G1. cbn [fst snd]. destruct (GB _ _ _ G1 Hi1) as [_ Hi2].
+    destruct (get_byte (g_d g) i2) as [ns i3] eqn:G2. cbn [fst snd]. destruct (GB _ _ _ G2 Hi2) as [_ Hi3].
+    destruct (get_byte (g_d g) i3) as [np i4] eqn:G3. cbn [fst snd]. destruct (GB _ _ _ G3 Hi3) as [Hnp _].
     unfold rw_default. eexists. split; [reflexivity|]. apply ack_shape_uniform; try assumption; [destruct (is_tx e pgn)| |]; unfold code_ok; lia.
 Qed.
 
